@@ -62,9 +62,14 @@ def bgzf_members(path):
     return n
 
 
-def text_variant(lines, rng, sit):
+def text_variant(lines, rng, sit, bom=True):
     """text-level variants every reader accepts today: CRLF line ends and/or a non-ASCII (multi-byte
     UTF-8) character in an optional field; the same bytes go into the plain and the BGZF copies"""
+    if bom and lines and rng.random() < 0.2:
+        # a UTF-8 byte order mark left by an editor: today it stays glued to the first read name in
+        # every reader; whatever is done with it must not depend on the compression
+        lines = ["\ufeff" + lines[0]] + list(lines[1:])
+        sit["text_variant_bom"] += 1
     if rng.random() >= 0.3:
         return lines
     kind = rng.choice(["crlf", "utf8", "both"])
@@ -306,7 +311,7 @@ def run_case(ctx, rng, index, casedir):
     elif sub == "realign":
         from vf import realign_run as RR
         w = RR.make_workload(rng, casedir, min(nrec, 900), read_len=(20, 120))
-        w.lines = align_to_64k(text_variant(w.lines, rng, sit), rng, sit)
+        w.lines = align_to_64k(text_variant(w.lines, rng, sit, bom=False), rng, sit)
         cfgs = write_configs(casedir, w.lines, lambda p: w.g.write(p, rng=rng), rng, sit)
         res = []
         for label, gaf, gfa in cfgs:
